@@ -1,1 +1,623 @@
-fn main(){}
+//! pure-mc: exhaustive input-lattice enumeration of the bump-pointer arithmetic (C11) and of the chunk-size
+//! arithmetic (C12, pure part). The functions under test are compiled from the repository's own source files.
+//!
+//! usage: pure-mc check --prop C11|C12 --tier quick|thorough [--threads N]
+//!        pure-mc replay --prop C11|C12 --case "<k=v ...>"
+
+#![allow(dead_code, unused_imports, unfulfilled_lint_expectations, clippy::all)]
+
+#[path = "/repo/src/bumping.rs"]
+mod bumping;
+#[path = "/repo/src/chunk/size_config.rs"]
+mod size_config;
+
+use bumping::{BumpProps, bump_down, bump_prepare_down, bump_prepare_up, bump_up};
+use size_config::ChunkSizeConfig;
+use std::alloc::Layout;
+use std::collections::HashMap;
+use std::panic::{AssertUnwindSafe, catch_unwind};
+use std::sync::Mutex;
+use std::sync::atomic::{AtomicU64, Ordering};
+use std::time::Instant;
+use vcore::json::J;
+
+fn arg(args: &[String], name: &str) -> Option<String> {
+    args.iter().position(|a| a == name).and_then(|i| args.get(i + 1).cloned())
+}
+
+// ----------------------------------------------------------------------------------------------------
+// C11
+// ----------------------------------------------------------------------------------------------------
+
+#[derive(Clone, Copy, Debug)]
+struct Case11 {
+    f: u8, // 0 up, 1 down, 2 prepare_up, 3 prepare_down
+    start: usize,
+    end: usize,
+    size: usize,
+    align: usize,
+    ma: usize,
+    hints: u8, // bit0 align_is_const, bit1 size_is_const, bit2 size_is_multiple_of_align
+}
+
+impl Case11 {
+    fn text(&self) -> String {
+        format!("f={} start={} end={} size={} align={} ma={} hints={}", self.f, self.start, self.end, self.size, self.align, self.ma, self.hints)
+    }
+    fn parse(s: &str) -> Option<Case11> {
+        let m: HashMap<&str, usize> = s.split_whitespace().filter_map(|kv| kv.split_once('=')).filter_map(|(k, v)| Some((k, v.parse().ok()?))).collect();
+        Some(Case11 { f: *m.get("f")? as u8, start: *m.get("start")?, end: *m.get("end")?, size: *m.get("size")?, align: *m.get("align")?, ma: *m.get("ma")?, hints: *m.get("hints")? as u8 })
+    }
+    fn props(&self) -> BumpProps {
+        BumpProps {
+            start: self.start,
+            end: self.end,
+            layout: Layout::from_size_align(self.size, self.align).unwrap(),
+            min_align: self.ma,
+            align_is_const: self.hints & 1 != 0,
+            size_is_const: self.hints & 2 != 0,
+            size_is_multiple_of_align: self.hints & 4 != 0,
+        }
+    }
+}
+
+fn up_i(x: i128, a: i128) -> i128 {
+    (x + a - 1) / a * a
+}
+fn down_i(x: i128, a: i128) -> i128 {
+    x / a * a
+}
+
+/// Reference specification in unbounded integers. Ok(None) = does not fit.
+#[derive(Debug, PartialEq, Eq, Clone, Copy)]
+enum Spec {
+    NoFit,
+    Up { ptr: i128, new_pos: i128 },
+    Down { ptr: i128 },
+    Range { start: i128, end: i128 },
+}
+
+fn spec(c: &Case11) -> Spec {
+    let (s, e, size, al, ma) = (c.start as i128, c.end as i128, c.size as i128, c.align as i128, c.ma as i128);
+    if s > e {
+        return Spec::NoFit; // dummy chunk: negative capacity
+    }
+    match c.f {
+        0 => {
+            let p = up_i(s, al);
+            if p + size <= e { Spec::Up { ptr: p, new_pos: up_i(p + size, ma) } } else { Spec::NoFit }
+        }
+        1 => {
+            let a = al.max(ma);
+            let p = down_i(e - size, a);
+            if e - size >= 0 && p >= s { Spec::Down { ptr: p } } else { Spec::NoFit }
+        }
+        2 | 3 => {
+            let ps = up_i(s, al);
+            let pe = down_i(e, al);
+            // sizes are multiples of the alignment (array layouts): fits iff the aligned range is large enough
+            if pe - ps >= size && pe >= ps { Spec::Range { start: ps, end: pe } } else { Spec::NoFit }
+        }
+        _ => unreachable!(),
+    }
+}
+
+fn run11(c: &Case11) -> Result<Spec, String> {
+    let r = catch_unwind(AssertUnwindSafe(|| match c.f {
+        0 => match bump_up(c.props()) {
+            Some(u) => Spec::Up { ptr: u.ptr as i128, new_pos: u.new_pos as i128 },
+            None => Spec::NoFit,
+        },
+        1 => match bump_down(c.props()) {
+            Some(p) => Spec::Down { ptr: p as i128 },
+            None => Spec::NoFit,
+        },
+        2 => match bump_prepare_up(c.props()) {
+            Some(r) => Spec::Range { start: r.start as i128, end: r.end as i128 },
+            None => Spec::NoFit,
+        },
+        3 => match bump_prepare_down(c.props()) {
+            Some(r) => Spec::Range { start: r.start as i128, end: r.end as i128 },
+            None => Spec::NoFit,
+        },
+        _ => unreachable!(),
+    }));
+    r.map_err(|_| vcore::crash::take_last_panic().unwrap_or_else(|| "panic".into()))
+}
+
+fn check11(c: &Case11) -> Result<bool, String> {
+    let want = spec(c);
+    let got = run11(c).map_err(|m| format!("panicked / overflowed: {m}"))?;
+    if want != got {
+        return Err(format!("expected {want:?}, got {got:?}"));
+    }
+    Ok(want != Spec::NoFit)
+}
+
+fn hint_ok(hints: u8, size: usize, align: usize) -> bool {
+    let (ac, sc, mult) = (hints & 1 != 0, hints & 2 != 0, hints & 4 != 0);
+    (!sc || ac) && (!mult || size % align == 0)
+}
+
+struct Dom11 {
+    bases: Vec<usize>,
+    start_offs: usize,
+    max_blocks: usize,
+    sizes: Vec<usize>,
+    aligns: Vec<usize>,
+}
+
+fn dom11(thorough: bool) -> Dom11 {
+    let top = usize::MAX - 15 - 16 * if thorough { 64 } else { 16 } - 256;
+    let mut sizes: Vec<usize> = (0..=if thorough { 200 } else { 80 }).collect();
+    sizes.extend([255, 256, 257, 1 << 31, 1 << 62, (isize::MAX as usize) - 4095, isize::MAX as usize]);
+    let mut aligns: Vec<usize> = (0..=12).map(|k| 1usize << k).collect();
+    aligns.extend([1 << 20, 1 << 29, 1 << 62]);
+    Dom11 {
+        bases: vec![16, 4096, 1 << 31, (1 << 47) - 4096, (1 << 63) - 256, 1 << 63, top & !4095],
+        start_offs: if thorough { 256 } else { 64 },
+        max_blocks: if thorough { 64 } else { 16 },
+        sizes,
+        aligns,
+    }
+}
+
+fn c11(thorough: bool, threads: usize) -> (J, Vec<J>) {
+    let t0 = Instant::now();
+    let d = dom11(thorough);
+    let evals = AtomicU64::new(0);
+    let fits = AtomicU64::new(0);
+    let viols: Mutex<Vec<(Case11, String)>> = Mutex::new(Vec::new());
+    let samples: Mutex<Vec<String>> = Mutex::new(Vec::new());
+    let mut items = Vec::new();
+    for f in 0..4u8 {
+        for ma in [1usize, 2, 4, 8, 16] {
+            for &base in &d.bases {
+                items.push((f, ma, base));
+            }
+        }
+    }
+    let next = AtomicU64::new(0);
+    std::thread::scope(|sc| {
+        for _ in 0..threads {
+            sc.spawn(|| {
+                loop {
+                    let i = next.fetch_add(1, Ordering::Relaxed) as usize;
+                    if i >= items.len() {
+                        break;
+                    }
+                    let (f, ma, base) = items[i];
+                    let up = f == 0 || f == 2;
+                    let mut n = 0u64;
+                    let mut nf = 0u64;
+                    // windows: UP: start multiple of ma, end multiple of 16; DOWN: start multiple of 16, end multiple of ma
+                    let mut windows: Vec<(usize, usize)> = Vec::new();
+                    if up {
+                        for so in (0..d.start_offs).step_by(ma) {
+                            let s = base + so;
+                            for k in 0..=d.max_blocks {
+                                let e = base + 16 * k;
+                                if e >= s && s != 0 {
+                                    windows.push((s, e));
+                                }
+                            }
+                        }
+                    } else {
+                        for j in 0..=(d.start_offs / 16) {
+                            let s = base + 16 * j;
+                            for eo in (0..=16 * d.max_blocks).step_by(ma) {
+                                let e = base + eo;
+                                if e >= s && s != 0 {
+                                    windows.push((s, e));
+                                }
+                            }
+                        }
+                    }
+                    // the dummy ranges: start = end + 16, both 16-aligned
+                    windows.push((base + 32, base + 16));
+                    windows.push((base + 16 * d.max_blocks + 16, base + 16 * d.max_blocks));
+                    for &(s, e) in &windows {
+                        for &align in &d.aligns {
+                            for &size in &d.sizes {
+                                if Layout::from_size_align(size, align).is_err() {
+                                    continue;
+                                }
+                                if f >= 2 && size % align != 0 {
+                                    continue;
+                                }
+                                for hints in 0..8u8 {
+                                    if !hint_ok(hints, size, align) {
+                                        continue;
+                                    }
+                                    let c = Case11 { f, start: s, end: e, size, align, ma, hints };
+                                    n += 1;
+                                    match check11(&c) {
+                                        Ok(true) => nf += 1,
+                                        Ok(false) => {}
+                                        Err(m) => {
+                                            let mut v = viols.lock().unwrap();
+                                            if v.len() < 16 {
+                                                v.push((c, m));
+                                            }
+                                        }
+                                    }
+                                    if n == 77_777 {
+                                        let mut sm = samples.lock().unwrap();
+                                        if sm.len() < 16 {
+                                            sm.push(c.text());
+                                        }
+                                    }
+                                }
+                            }
+                        }
+                    }
+                    evals.fetch_add(n, Ordering::Relaxed);
+                    fits.fetch_add(nf, Ordering::Relaxed);
+                }
+            });
+        }
+    });
+    let mut samples = samples.into_inner().unwrap();
+    if samples.is_empty() {
+        samples.push(Case11 { f: 0, start: 4096, end: 4096 + 64, size: 24, align: 8, ma: 4, hints: 1 }.text());
+    }
+    let viols = viols.into_inner().unwrap();
+    let cov = J::obj()
+        .set("evaluations", evals.load(Ordering::Relaxed))
+        .set("distinct_nontrivial", fits.load(Ordering::Relaxed))
+        .set("states", evals.load(Ordering::Relaxed))
+        .set("transitions", evals.load(Ordering::Relaxed))
+        .set("traces_validated_against_impl", evals.load(Ordering::Relaxed))
+        .set(
+            "rule",
+            "complete product of {bump_up, bump_down, bump_prepare_up, bump_prepare_down} x min_align{1,2,4,8,16} x window bases (incl. next to 0, 2^63 and the top of the address space) x start offsets x capacities (multiples of 16 blocks, incl. the two negative-capacity dummy ranges) x sizes x power-of-two aligns (legal Layouts only; multiples of align for prepare) x all truthful hint triples, each compared with an i128 specification; non-trivial = inputs for which the request fits",
+        )
+        .set("samples", samples)
+        .set("exhaustive", true)
+        .set("bases", d.bases.iter().map(|b| format!("{b:#x}")).collect::<Vec<_>>())
+        .set("start_offsets", d.start_offs)
+        .set("capacity_blocks_of_16", d.max_blocks)
+        .set("sizes", d.sizes.len())
+        .set("aligns", d.aligns.len());
+    let vj = viols
+        .iter()
+        .map(|(c, m)| J::obj().set("prop", "C11").set("cfg", "").set("params", "").set("history", c.text()).set("msg", m.as_str()).set("replay_args", vec!["--case".to_string(), c.text()]))
+        .collect();
+    let space = J::obj()
+        .set("property_id", "C11")
+        .set("tier", if thorough { "thorough" } else { "quick" })
+        .set("seed", 0)
+        .set("level", "model_checking")
+        .set("coverage", cov)
+        .set("wall_s", t0.elapsed().as_secs_f64())
+        .set("violations", viols.len())
+        .set("floor", 1000)
+        .set("floor_ok", fits.load(Ordering::Relaxed) >= 1000);
+    (space, vj)
+}
+
+// ----------------------------------------------------------------------------------------------------
+// C12 (pure part)
+// ----------------------------------------------------------------------------------------------------
+
+#[derive(Clone, Copy, Debug)]
+struct Case12 {
+    kind: u8, // 0 from_capacity fit, 1 from_hint shape, 2 growth
+    up: bool,
+    hs: usize,
+    ha: usize,
+    mcs: usize,
+    size: usize,
+    align: usize,
+    extra: usize,
+}
+
+impl Case12 {
+    fn text(&self) -> String {
+        format!("kind={} up={} hs={} ha={} mcs={} size={} align={} extra={}", self.kind, self.up as u8, self.hs, self.ha, self.mcs, self.size, self.align, self.extra)
+    }
+    fn parse(s: &str) -> Option<Case12> {
+        let m: HashMap<&str, usize> = s.split_whitespace().filter_map(|kv| kv.split_once('=')).filter_map(|(k, v)| Some((k, v.parse().ok()?))).collect();
+        Some(Case12 { kind: *m.get("kind")? as u8, up: *m.get("up")? != 0, hs: *m.get("hs")?, ha: *m.get("ha")?, mcs: *m.get("mcs")?, size: *m.get("size")?, align: *m.get("align")?, extra: *m.get("extra")? })
+    }
+    fn cfg(&self) -> ChunkSizeConfig {
+        ChunkSizeConfig { up: self.up, assumed_malloc_overhead_layout: Layout::new::<[usize; 2]>(), chunk_header_layout: Layout::from_size_align(self.hs, self.ha).unwrap() }
+    }
+}
+
+/// header layout of `ChunkHeader<A>` for an allocator value of (size, align): 4 words + A, repr(C, align(16))
+fn header_layout(asize: usize, aalign: usize) -> (usize, usize) {
+    let ha = aalign.max(16);
+    let off = (32 + aalign - 1) & !(aalign - 1);
+    let hs = (off + asize + ha - 1) & !(ha - 1);
+    (hs, ha)
+}
+
+/// chunk size the library would request for a capacity `layout` (replica of chunk/size.rs: max(hint, MINIMUM_CHUNK_SIZE))
+fn size_for_capacity(c: &Case12) -> Option<usize> {
+    let cfg = c.cfg();
+    let layout = Layout::from_size_align(c.size, c.align).ok()?;
+    let hint = cfg.calc_hint_from_capacity(layout)?;
+    cfg.calc_size_from_hint(hint.max(c.mcs)).map(|n| n.get())
+}
+
+fn check12(c: &Case12) -> Result<bool, String> {
+    let cfg = c.cfg();
+    let r = catch_unwind(AssertUnwindSafe(|| -> Result<bool, String> {
+        match c.kind {
+            0 => {
+                let Some(size) = size_for_capacity(c) else {
+                    // None is only acceptable when the request is genuinely too big for the address space
+                    let need = c.size as u128 + c.align as u128 + c.hs as u128 + c.ha as u128 + 8192;
+                    if need <= usize::MAX as u128 {
+                        return Err(format!("size computation failed although only about {need} bytes are needed"));
+                    }
+                    return Ok(false);
+                };
+                if size % 16 != 0 {
+                    return Err(format!("chunk size {size} is not a multiple of 16"));
+                }
+                if !c.up && size % c.ha != 0 {
+                    return Err(format!("chunk size {size} is not a multiple of the header alignment {}", c.ha));
+                }
+                if (size as u128) < c.hs as u128 + c.size as u128 {
+                    return Err(format!("chunk size {size} is smaller than header {} + capacity {}", c.hs, c.size));
+                }
+                // the base allocator grants `size + extra` bytes; the chunk uses align_size(granted)
+                let Some(granted) = size.checked_add(c.extra) else { return Ok(false) };
+                let actual = cfg.align_size(granted);
+                if actual < size {
+                    return Err(format!("align_size({granted}) = {actual} is below the requested size {size}"));
+                }
+                if actual % 16 != 0 || (!c.up && actual % c.ha != 0) {
+                    return Err(format!("aligned granted size {actual} violates the size invariants"));
+                }
+                // the layout fits for every base address phase (base is a multiple of the header alignment)
+                let al = c.align as i128;
+                let phases: Vec<i128> = if c.align <= 4096 {
+                    (0..c.align.max(c.ha)).step_by(c.ha).map(|p| p as i128).collect()
+                } else {
+                    vec![0, c.ha as i128, al / 2, al - c.ha as i128]
+                };
+                for ph in phases {
+                    let base = (1i128 << 40) + ph; // 2^40 is a multiple of every alignment <= 2^29
+                    let (cs, ce) = if c.up { (base + c.hs as i128, base + actual as i128) } else { (base, base + actual as i128 - c.hs as i128) };
+                    if c.up {
+                        let p = up_i(cs, al);
+                        if p + c.size as i128 > ce {
+                            return Err(format!("layout does not fit into the fresh chunk of {actual} bytes (upwards, base phase {ph}): content {}..{}", cs - base, ce - base));
+                        }
+                    } else {
+                        for ma in [1i128, 2, 4, 8, 16] {
+                            let p = down_i(ce - c.size as i128, al.max(ma));
+                            if ce - (c.size as i128) < 0 || p < cs {
+                                return Err(format!("layout does not fit into the fresh chunk of {actual} bytes (downwards, base phase {ph}, min_align {ma})"));
+                            }
+                        }
+                    }
+                }
+                Ok(true)
+            }
+            1 => {
+                // from_hint: shape invariants for arbitrary hints (size field = the hint)
+                let hint = c.size.max(c.mcs);
+                match cfg.calc_size_from_hint(hint) {
+                    Some(n) => {
+                        let size = n.get();
+                        if size % 16 != 0 || (!c.up && size % c.ha != 0) {
+                            return Err(format!("calc_size_from_hint({hint}) = {size} violates the size invariants"));
+                        }
+                        if size < c.hs {
+                            return Err(format!("calc_size_from_hint({hint}) = {size} cannot hold the header of {} bytes", c.hs));
+                        }
+                        // never shrinks a hint by more than the malloc overhead + alignment slack (no wrap-around)
+                        if (size as u128) + 16 + 16 + (c.ha as u128) < hint as u128 {
+                            return Err(format!("calc_size_from_hint({hint}) = {size} is far below the hint (wrapped?)"));
+                        }
+                        Ok(true)
+                    }
+                    None => {
+                        if (hint as u128) + 8192 + c.ha as u128 + c.hs as u128 <= usize::MAX as u128 {
+                            return Err(format!("calc_size_from_hint({hint}) failed although the result is representable"));
+                        }
+                        Ok(false)
+                    }
+                }
+            }
+            2 => {
+                // growth: the chunk after a chunk of `prev` bytes (size field, a valid chunk size) is >= 2*prev - 16
+                let prev = c.size;
+                let Some(twice) = prev.checked_mul(2) else { return Ok(false) };
+                match cfg.calc_size_from_hint(twice.max(c.mcs)) {
+                    Some(n) => {
+                        if (n.get() as u128) + 16 < 2 * prev as u128 {
+                            return Err(format!("chunk after a {prev}-byte chunk has only {} bytes", n.get()));
+                        }
+                        Ok(true)
+                    }
+                    None => {
+                        if (twice as u128) + 8192 + c.ha as u128 + c.hs as u128 <= usize::MAX as u128 {
+                            return Err(format!("growth from {prev} failed although the result is representable"));
+                        }
+                        Ok(false)
+                    }
+                }
+            }
+            _ => unreachable!(),
+        }
+    }));
+    match r {
+        Ok(x) => x,
+        Err(_) => Err(format!("panicked / overflowed: {}", vcore::crash::take_last_panic().unwrap_or_default())),
+    }
+}
+
+fn c12(thorough: bool, threads: usize) -> (J, Vec<J>) {
+    let t0 = Instant::now();
+    let asizes: Vec<usize> = if thorough { vec![0, 1, 8, 16, 24, 40, 100, 255, 256] } else { vec![0, 8, 24, 100, 256] };
+    let aaligns: Vec<usize> = vec![1, 8, 16, 32, 64, 256];
+    let mcss: Vec<usize> = vec![0, 1, 512, 4096, 1 << 20];
+    let mut sizes: Vec<usize> = (0..=if thorough { 5000 } else { 1200 }).collect();
+    for k in 4..63 {
+        for d in [-1i64, 0, 1] {
+            sizes.push(((1u64 << k) as i64 + d) as usize);
+        }
+    }
+    for d in 0..64usize {
+        sizes.push(isize::MAX as usize - d * 67);
+    }
+    let aligns: Vec<usize> = (0..=29).map(|k| 1usize << k).collect();
+    let extras: Vec<usize> = vec![0, 1, 15, 16, 17, 24, 40, 100, 4095, 4096];
+    let mut items = Vec::new();
+    for &asz in &asizes {
+        for &aal in &aaligns {
+            if asz % aal != 0 && asz != 0 {
+                // a type's size is a multiple of its alignment
+                continue;
+            }
+            for up in [true, false] {
+                for &mcs in &mcss {
+                    items.push((asz, aal, up, mcs));
+                }
+            }
+        }
+    }
+    let evals = AtomicU64::new(0);
+    let nontriv = AtomicU64::new(0);
+    let viols: Mutex<Vec<(Case12, String)>> = Mutex::new(Vec::new());
+    let samples: Mutex<Vec<String>> = Mutex::new(Vec::new());
+    let next = AtomicU64::new(0);
+    std::thread::scope(|sc| {
+        for _ in 0..threads {
+            sc.spawn(|| {
+                loop {
+                    let i = next.fetch_add(1, Ordering::Relaxed) as usize;
+                    if i >= items.len() {
+                        break;
+                    }
+                    let (asz, aal, up, mcs) = items[i];
+                    let (hs, ha) = header_layout(asz, aal);
+                    let mut n = 0u64;
+                    let mut nt = 0u64;
+                    let mut run = |c: Case12| {
+                        n += 1;
+                        match check12(&c) {
+                            Ok(true) => nt += 1,
+                            Ok(false) => {}
+                            Err(m) => {
+                                let mut v = viols.lock().unwrap();
+                                if v.len() < 16 {
+                                    v.push((c, m));
+                                }
+                            }
+                        }
+                        if n == 55_555 {
+                            let mut sm = samples.lock().unwrap();
+                            if sm.len() < 16 {
+                                sm.push(c.text());
+                            }
+                        }
+                    };
+                    for &size in &sizes {
+                        for &align in &aligns {
+                            if Layout::from_size_align(size, align).is_err() {
+                                continue;
+                            }
+                            // extras only matter for small layouts (the phase loop dominates otherwise)
+                            let ex: &[usize] = if size <= 1200 && align <= 64 { &extras } else { &extras[..2] };
+                            for &extra in ex {
+                                run(Case12 { kind: 0, up, hs, ha, mcs, size, align, extra });
+                            }
+                        }
+                        run(Case12 { kind: 1, up, hs, ha, mcs, size, align: 1, extra: 0 });
+                        if size % 16 == 0 && size >= hs {
+                            run(Case12 { kind: 2, up, hs, ha, mcs, size, align: 1, extra: 0 });
+                        }
+                    }
+                    for k in 0..9000usize {
+                        run(Case12 { kind: 1, up, hs, ha, mcs, size: usize::MAX - k, align: 1, extra: 0 });
+                    }
+                    evals.fetch_add(n, Ordering::Relaxed);
+                    nontriv.fetch_add(nt, Ordering::Relaxed);
+                }
+            });
+        }
+    });
+    let mut samples = samples.into_inner().unwrap();
+    if samples.is_empty() {
+        samples.push(Case12 { kind: 0, up: true, hs: 32, ha: 16, mcs: 512, size: 100, align: 64, extra: 24 }.text());
+    }
+    let viols = viols.into_inner().unwrap();
+    let ev = evals.load(Ordering::Relaxed);
+    let nt = nontriv.load(Ordering::Relaxed);
+    let cov = J::obj()
+        .set("evaluations", ev)
+        .set("distinct_nontrivial", nt)
+        .set("states", ev)
+        .set("transitions", ev)
+        .set("traces_validated_against_impl", ev)
+        .set(
+            "rule",
+            "complete product of allocator value layouts (header layouts) x direction x minimum chunk size x (capacity layouts: sizes 0..N, 2^k±1, near isize::MAX; aligns 2^0..2^29) x extra granted bytes, plus arbitrary hints (incl. the top 9000 usize values) and growth steps; ChunkSizeConfig is compiled from /repo/src/chunk/size_config.rs; for every computed size the layout must fit for every base-address phase and min_align; non-trivial = a size was computed (no overflow) and all invariants were evaluated",
+        )
+        .set("samples", samples)
+        .set("exhaustive", true)
+        .set("header_layouts", items.len() / (2 * mcss.len()))
+        .set("sizes", sizes.len())
+        .set("aligns", aligns.len());
+    let vj = viols
+        .iter()
+        .map(|(c, m)| J::obj().set("prop", "C12").set("cfg", "").set("params", "").set("history", c.text()).set("msg", m.as_str()).set("replay_args", vec!["--case".to_string(), c.text()]))
+        .collect();
+    let space = J::obj()
+        .set("property_id", "C12")
+        .set("tier", if thorough { "thorough" } else { "quick" })
+        .set("seed", 0)
+        .set("level", "model_checking")
+        .set("space", "pure")
+        .set("coverage", cov)
+        .set("wall_s", t0.elapsed().as_secs_f64())
+        .set("violations", viols.len())
+        .set("floor", 1000)
+        .set("floor_ok", nt >= 1000);
+    (space, vj)
+}
+
+fn main() {
+    vcore::crash::install();
+    let args: Vec<String> = std::env::args().collect();
+    let cmd = args.get(1).map(String::as_str).unwrap_or("");
+    let prop = arg(&args, "--prop").unwrap_or_default();
+    match cmd {
+        "check" => {
+            let thorough = arg(&args, "--tier").as_deref() == Some("thorough");
+            let threads: usize = arg(&args, "--threads").and_then(|s| s.parse().ok()).unwrap_or_else(|| std::thread::available_parallelism().map_or(8, |n| n.get()));
+            let (space, viols) = match prop.as_str() {
+                "C11" => c11(thorough, threads),
+                "C12" => c12(thorough, threads),
+                _ => panic!("unknown property"),
+            };
+            for v in &viols {
+                println!("VIOL {}", v.to_string());
+            }
+            println!("SPACE {}", space.to_string());
+            println!("DONE violations={}", viols.len());
+        }
+        "replay" => {
+            let case = arg(&args, "--case").expect("--case");
+            let r = match prop.as_str() {
+                "C11" => check11(&Case11::parse(&case).expect("case")).map(|_| ()),
+                "C12" => check12(&Case12::parse(&case).expect("case")).map(|_| ()),
+                _ => panic!("unknown property"),
+            };
+            match r {
+                Ok(()) => println!("REPLAY OK"),
+                Err(m) => println!("REPLAY VIOLATION step=0 msg={m}"),
+            }
+        }
+        _ => {
+            eprintln!("usage: pure-mc check|replay --prop C11|C12 ...");
+            std::process::exit(2);
+        }
+    }
+}
